@@ -123,3 +123,76 @@ def run(prog, rule="R-FREEBOTH"):
                         "effects_upper_only": len(up - lo), "verdict": "all reachable for STAT_ZERO"})
     res.floor("classifiers analysed", len(CLASSIFIERS), 5)
     return res
+
+
+# ---------------------------------------------------------------------------------------------------------------------
+# R-NBSYM (C05): non-basic statuses are treated alike where the library decides whether a basis / cached solution
+# survives a deletion.  ILLlib_delrows keeps the basis only if every deleted row is BASIC; ILLlib_delcols only if every
+# deleted column is non-basic.  The decision must not distinguish LOWER from UPPER (from FREE): same effects reachable.
+NB_TABLE = {
+    "mpq_ILLlib_delrows": ("ILLlp_basis::rstat", {"QS_ROW_BSTAT_LOWER": 48, "QS_ROW_BSTAT_UPPER": 50}, {"QS_ROW_BSTAT_BASIC": 49}),
+    "mpq_ILLlib_delcols": ("ILLlp_basis::cstat", {"QS_COL_BSTAT_LOWER": 48, "QS_COL_BSTAT_UPPER": 50, "QS_COL_BSTAT_FREE": 51}, {"QS_COL_BSTAT_BASIC": 49}),
+}
+
+
+def _effects_for(prog, f, field, sv):
+    def subj(t):
+        t = strip(t)
+        if isinstance(t, list) and t and t[0] == "i":
+            fl = fields_of(apath(t[1])[2])
+            return bool(fl) and fl[-1].endswith(field)
+        return False
+
+    def refine(cond, truth, st):
+        for l, op, r in atoms(cond, truth):
+            for a, b_, o in ((l, r, op), (r, l, SWAP[op])):
+                if subj(a):
+                    v = const_of(b_)
+                    if v is None:
+                        continue
+                    if o == "==" and v != sv:
+                        return []
+                    if o == "!=" and v == sv:
+                        return []
+        return None
+
+    def rsw(cond, value, allc, st):
+        if subj(cond):
+            if value is None:
+                return [st] if sv not in allc else []
+            return [st] if value == sv else []
+        return [st]
+    fl = Flow(prog, f, [(sv,)], lambda b, i, e, st: None, refine, rsw).run()
+    eff = set()
+    for bid, sts in fl.IN.items():
+        if sts:
+            for i, e in enumerate(f.blocks[bid]["e"]):
+                if e[0] in "ACU":
+                    eff.add((bid, i))
+    return eff
+
+
+def run_nbsym(prog, rule="R-NBSYM"):
+    res = RuleResult(rule, "where a deletion decides whether the basis survives, all non-basic statuses (LOWER, UPPER, FREE) reach the same effects")
+    for fn, (field, nb, basic) in NB_TABLE.items():
+        f = prog.require_fn(fn)
+        E = {n: _effects_for(prog, f, field, v) for n, v in nb.items()}
+        Eb = _effects_for(prog, f, field, list(basic.values())[0])
+        names = sorted(E)
+        if all(E[n] == Eb for n in names):
+            raise AnalysisBroken("%s: the basic status is no longer distinguished from the non-basic ones (decision not recognised)" % fn)
+        res.obligations += len(names) - 1
+        res.nontrivial += len(names) - 1
+        ref = names[0]
+        bad = [n for n in names[1:] if E[n] != E[ref]]
+        if bad:
+            n = bad[0]
+            diff = sorted(E[n] ^ E[ref])
+            e0 = f.blocks[diff[0][0]]["e"][diff[0][1]]
+            res.violations.append(Violation(rule, "%s|%s treated differently from %s" % (fn.replace("mpq_", ""), n, ref), fn, short_loc(e0[2]),
+                                            "%s: a deleted %s with status %s and one with status %s do not reach the same effects (%s is reachable "
+                                            "for only one of them): both are non-basic, the basis / cache must be dropped alike" % (
+                                                fn, "row" if "rstat" in field else "column", n, ref, show(e0[1])[:60])))
+        else:
+            res.sample({"function": fn, "statuses": names, "verdict": "same effects; differ from %s" % list(basic)[0]})
+    return res
